@@ -52,6 +52,18 @@ var digestChoices = []struct {
 // and the file name unique so every response is attributable to one request.
 func genSignCase(t *core.Tape, uniq string, mods []string) *signCase {
 	c := &signCase{Flags: url.Values{}}
+	if only := os.Getenv("VERIF_MODS"); only != "" {
+		// targeted experiments: restrict the module mix (never set by a registered command)
+		var sub []string
+		for _, m := range mods {
+			if strings.Contains(","+only+",", ","+m+",") {
+				sub = append(sub, m)
+			}
+		}
+		if len(sub) > 0 {
+			mods = sub
+		}
+	}
 	c.Mod = mods[t.Choose(len(mods), "module")]
 	c.SigType = c.Mod
 	d := digestChoices[t.Choose(len(digestChoices), "digest")]
@@ -86,6 +98,12 @@ func genSignCase(t *core.Tape, uniq string, mods []string) *signCase {
 		c.PGP = true
 		c.File = "doc" + uniq + ".txt"
 		c.Input = []byte("document " + uniq + "\n" + strings.Repeat("line\n", t.Choose(200, "pgp-lines")))
+		if t.Chance(1, 4, "pgp-long-line") {
+			// a line longer than the usual line buffers (but below the 64 KiB
+			// limit of the scanner the clear-sign helpers use)
+			n := core.Pick(t, "pgp-long-line-len", 4097, 6000, 30000, 65000)
+			c.Input = append(c.Input, []byte(strings.Repeat("x", n)+"\nlast line\n")...)
+		}
 		switch core.Pick(t, "pgp-mode", "detached", "armor", "clearsign", "inline") {
 		case "armor":
 			c.Flags.Set("armor", "true")
